@@ -9,4 +9,5 @@ def run(ctx, rep):
     objmodel.rule_argument_order(ctx, rep, "C11-R4")
     objmodel.rule_native_results_normalised(ctx, rep, "C11-R4b")
     recursion.rule_data_recursion_guarded(ctx, rep, "C11-R5", only={"context:Context._to_python", "context:Context._to_js"}, floor=2)
+    recursion.rule_cycle_guard_is_path_scoped(ctx, rep, "C11-R5b", {"context:Context._to_python", "context:Context._to_js"})
     rep.undecided += ["get(set(v)) == v for all value shapes (round-trip equality is a runtime property)"]
